@@ -223,28 +223,35 @@ impl LuaGreenNodeBuilder<'_> {
 
     #[inline]
     pub fn finish(mut self, text: &str) -> GreenNode {
-        if let Some(root_pos) = self.children.first() {
-            let is_chunk_root = matches!(
-                self.elements[*root_pos],
-                LuaGreenElement::Node {
-                    kind: LuaSyntaxKind::Chunk,
-                    ..
-                }
-            );
-            if !is_chunk_root {
-                self.builder.start_node(LuaSyntaxKind::Chunk.into());
-            }
-
-            self.build_rowan_green(*root_pos, text);
-
-            if !is_chunk_root {
-                self.builder.finish_node();
-            }
-
-            return self.builder.finish();
+        // An unbalanced event stream (error recovery) can leave nodes open or leave
+        // elements next to the root; keep all of them so that no source text is lost.
+        while !self.parents.is_empty() && !self.children.is_empty() {
+            self.finish_node();
         }
 
+        let top = std::mem::take(&mut self.children);
         self.builder.start_node(LuaSyntaxKind::Chunk.into());
+        for (i, pos) in top.iter().enumerate() {
+            let is_chunk_root = i == 0
+                && matches!(
+                    self.elements[*pos],
+                    LuaGreenElement::Node {
+                        kind: LuaSyntaxKind::Chunk,
+                        ..
+                    }
+                );
+            if is_chunk_root {
+                if let LuaGreenElement::Node { children, .. } =
+                    std::mem::replace(&mut self.elements[*pos], LuaGreenElement::None)
+                {
+                    for child in children {
+                        self.build_rowan_green(child, text);
+                    }
+                }
+            } else {
+                self.build_rowan_green(*pos, text);
+            }
+        }
         self.builder.finish_node();
         self.builder.finish()
     }
